@@ -16,16 +16,19 @@ MODE_UI_HEARTBEAT = 0x04
 
 
 def le(bs):
+    # arithmetic, not bit operations: CrossHair enumerates values for | and << on symbolic ints
     r = 0
-    for i, b in enumerate(bs):
-        r = r | (b << (8 * i))
+    m = 1
+    for b in bs:
+        r = r + b * m
+        m = m * 256
     return r
 
 
 def be(bs):
     r = 0
     for b in bs:
-        r = (r << 8) | b
+        r = r * 256 + b
     return r
 
 
@@ -49,6 +52,11 @@ class SimDevice:
         self.pin_buffer = {}
         self.device_pin = None
         self.change_pin_sw = None        # status word raised by CHANGE_PIN (None = accept)
+        self.newpin_reaction = "ack"     # ack | refuse | sw | write | read | timeout  (reaction to the new PIN)
+        self.newpin_sw = 0x6A99
+        self.unlock_pins = []            # PINs presented with an unlock command
+        self.newpin_offered = []         # PINs presented with a change command
+        self.sgx_onboard = None
         self.seed = {}
         self.wiped = False
         # --- signer data
@@ -120,15 +128,44 @@ class SimDevice:
         if cmd == 0x41:   # SEND_PIN idx byte
             self.pin_buffer[data[0]] = data[1]
             return resp([CLA, 0x41])
-        if cmd == 0xFE:   # UNLOCK
+        if cmd == 0xFE:   # UNLOCK: the PIN is what SEND_PIN put into the buffer (no length prefix)
+            self.unlock_pins.append([self.pin_buffer[i] for i in sorted(self.pin_buffer)])
+            self.pin_buffer = {}
             return resp([CLA, 0xFE, self.unlock_ok])
-        if cmd == 0x08:   # CHANGE_PIN
+        if cmd == 0x08:   # CHANGE_PIN: buffer = length | pin
+            n = self.pin_buffer.get(0, 0)
+            pin = [self.pin_buffer.get(1 + i) for i in range(n)]
+            self.newpin_offered.append(pin)
+            self.pin_buffer = {}
             if self.change_pin_sw is not None:
                 from sim.base import raise_fault, FAULT_SW
                 raise_fault(FAULT_SW, self.change_pin_sw)
-            n = self.pin_buffer.get(0, 0)
-            self.device_pin = [self.pin_buffer.get(1 + i) for i in range(n)]
+            self._react_newpin()
+            if self.newpin_reaction == "refuse":
+                from sim.base import raise_fault, FAULT_SW
+                raise_fault(FAULT_SW, 0x69A0)
+            self.device_pin = pin
             return resp([CLA, 0x08])
+        # ---- SGX personality (sgx/hsm2dongle.py opcodes)
+        if cmd == 0xA4:   # SGX_ECHO
+            if self.echo_ok:
+                return resp([CLA, 0xA4] + data)
+            return resp([CLA, 0xA4] + [b ^ 1 for b in data])
+        if cmd == 0xA2:   # SGX_RETRIES
+            return resp([CLA, 0xA2, self.retries])
+        if cmd == 0xA3:   # SGX_UNLOCK: 0 | pin
+            self.unlock_pins.append(data[1:])
+            return resp([CLA, 0xA3, self.unlock_ok])
+        if cmd == 0xA5:   # SGX_CHANGE_PASSWORD: 0 | pin
+            self.newpin_offered.append(data[1:])
+            self._react_newpin()
+            if self.newpin_reaction == "refuse":
+                return resp([CLA, 0xA5, 0])
+            self.device_pin = data[1:]
+            return resp([CLA, 0xA5, 1])
+        if cmd == 0xA0:   # SGX_ONBOARD: 0 | seed(32) | pin
+            self.sgx_onboard = (data[1:33], data[33:])
+            return resp([CLA, 0xA0, 1])
         if cmd == 0x44:   # SEED idx byte
             self.seed[data[0]] = data[1]
             return resp([CLA, 0x44])
@@ -136,6 +173,18 @@ class SimDevice:
             self.wiped = True
             return resp([CLA, 2])
         raise ProtocolViolation("command %x in bootloader mode" % cmd)
+
+    def _react_newpin(self):
+        from sim.base import raise_fault, FAULT_SW, FAULT_WRITE, FAULT_READ, FAULT_TIMEOUT
+        r = self.newpin_reaction
+        if r == "sw":
+            raise_fault(FAULT_SW, self.newpin_sw)
+        if r == "write":
+            raise_fault(FAULT_WRITE)
+        if r == "read":
+            raise_fault(FAULT_READ)
+        if r == "timeout":
+            raise_fault(FAULT_TIMEOUT)
 
     # ------------------------------------------------------------ signer
     def handle_signer(self, cmd, data):
